@@ -211,7 +211,7 @@ func RunHistory(t *core.T) {
 	w[0] += 2 // adds keep the tree populated
 	if s.Chance(1, 80, "preload") {
 		// scale: hundreds to thousands of stored pointers, long chains of duplicates
-		n := []int{300, 1000, 3000}[s.Intn(3, "npre")]
+		n := []int{300, 1000, 3000, 6000}[s.Intn(4, "npre")]
 		dup := s.Intn(len(r.w.Pool), "duppt")
 		for i := 0; i < n; i++ {
 			p := r.w.Pool[dup]
